@@ -738,6 +738,10 @@ def run_case(keys):
     cmpr = Comparer(fin, fo)
     nprobe = 0
     completes_included = any("completes_included_opaque" in it.cls for it in seq)
+    overridden_by_variable = set()
+    for it in seq:
+        if "constant_and_variable_same_name" in it.cls:
+            overridden_by_variable.update(it.globs)
     for it in seq:
         for t in it.types:
             try:
@@ -815,8 +819,15 @@ def run_case(keys):
                 classes.append("probe_excluded.inline_constant_has_no_value")
                 continue
             nprobe += 1
+            inline_ic = True
+            if c in overridden_by_variable:
+                # lib.<name> has a value in-line but the name is no integer constant there: it is the VARIABLE that
+                # an override=True cdef put next to the constant of the same name (item ov_constvar), so the module's
+                # integer_const() is not owed (the in-line FFI class has no integer_const() to ask)
+                inline_ic = False
+                classes.append("probe_excluded.constant_name_is_an_overriding_variable")
             try:
-                vb = fo.integer_const(c)
+                vb = fo.integer_const(c) if inline_ic else va
             except Exception as e:
                 bad("constant_missing", "integer_const", va, _err(e), extra=c)
                 vb = va
@@ -1078,7 +1089,9 @@ def run(ctx):
     blocks += list(pool.chunks(light, 120))
     evaluated = 0
     nontrivial = 0
-    for block, r in pool.pmap(work, [[b] for b in blocks]):
+    # (item_timeout: the 34000-typedef cdef takes 30-50 s of CPU alone; on the loaded shared machine a worker gets a
+    # fraction of a core)
+    for block, r in pool.pmap(work, [[b] for b in blocks], item_timeout=300 if ctx.quick else 2400):
         if isinstance(r, pool.WorkerError):
             raise InfraError("worker failed: %s" % r.tb)
         if isinstance(r, pool.Crash):
